@@ -1,6 +1,17 @@
 // Engine `field`.
-//   (default)  `<op> <a> <b> <p>` (hex): one public function of circom_algebra::modular_arithmetic.
-//   sweep P..  every operation on every operand pair of the small fields P.
+//   (default)  `<op> <a> <b> <p>` (hex, an operand may carry a `-` sign): one public function of
+//              circom_algebra::modular_arithmetic.  EVERY case runs in a worker thread under a watchdog; a case
+//              that does not answer is printed as `timeout` and the process ends (the check restarts it on the
+//              remaining lines, so that a stuck worker cannot be blamed on a later case).  Every output line is
+//              flushed: when the process dies (stack overflow of an unbounded recursion, allocation failure)
+//              the check knows from the lines it received which case killed it.
+//   work       same input; prints `<result> maxalloc <bytes>`: the largest single allocation requested while the
+//              function ran (counting global allocator) - the observable for "no astronomically large
+//              intermediate value".
+//   sweep P..  every operation on every operand pair of the small fields P (flushed per operand row).
+//   curves     stdin: candidate names, hex-encoded; prints `<hex> = <Display name> <prime hex> <prime_size>` for
+//              each name Curve::from_str accepts (the prime by EXECUTING UsefulConstants::new), `reject` otherwise;
+//              first line: the default curve.
 //   dispatch   `<curve> <hex of Circom expression text>`: the expression is wrapped into
 //              `function f() { return <expr>; }`, parsed, lowered (`into_cfg`), converted to SSA - which runs
 //              the REAL value propagation (Cfg::propagate_values -> Expression::propagate_values ->
@@ -14,7 +25,7 @@ use num_traits::Num;
 use parser::parse_definition;
 use program_structure::ast::{Definition, FillMeta};
 use program_structure::cfg::IntoCfg;
-use program_structure::constants::Curve;
+use program_structure::constants::{Curve, UsefulConstants};
 use program_structure::ir::value_meta::ValueMeta;
 use program_structure::ir::{Expression, Statement};
 use program_structure::report::ReportCollection;
@@ -22,8 +33,30 @@ use std::str::FromStr;
 use verif_harness::irdump;
 use std::io::Write;
 use std::panic::{catch_unwind, AssertUnwindSafe};
+use std::alloc::{GlobalAlloc, Layout, System};
+use std::io::BufRead;
+use std::sync::atomic::{AtomicUsize, Ordering};
 use std::sync::mpsc;
 use std::time::Duration;
+
+/// Counting allocator: the largest single request since the last reset.
+struct Counting;
+static MAX_ALLOC: AtomicUsize = AtomicUsize::new(0);
+unsafe impl GlobalAlloc for Counting {
+    unsafe fn alloc(&self, l: Layout) -> *mut u8 {
+        MAX_ALLOC.fetch_max(l.size(), Ordering::Relaxed);
+        System.alloc(l)
+    }
+    unsafe fn dealloc(&self, p: *mut u8, l: Layout) {
+        System.dealloc(p, l)
+    }
+    unsafe fn realloc(&self, p: *mut u8, l: Layout, new_size: usize) -> *mut u8 {
+        MAX_ALLOC.fetch_max(new_size, Ordering::Relaxed);
+        System.realloc(p, l, new_size)
+    }
+}
+#[global_allocator]
+static GLOBAL: Counting = Counting;
 
 pub const OPS: [&str; 24] = [
     "add", "mul", "sub", "div", "idiv", "mod", "pow", "neg", "compl", "shl", "shr", "bor", "band",
@@ -31,7 +64,10 @@ pub const OPS: [&str; 24] = [
 ];
 
 fn hex(s: &str) -> BigInt {
-    BigInt::from_str_radix(s, 16).unwrap()
+    match s.strip_prefix('-') {
+        Some(m) => -BigInt::from_str_radix(m, 16).unwrap(),
+        None => BigInt::from_str_radix(s, 16).unwrap(),
+    }
 }
 
 fn show(v: &BigInt) -> String {
@@ -89,31 +125,59 @@ fn watchdog_secs(default: u64) -> u64 {
     std::env::var("VERIF_FIELD_WATCHDOG_SECS").ok().and_then(|s| s.parse().ok()).unwrap_or(default)
 }
 
-/// Run with a 2 s watchdog (only used for shifts with large counts: the
-/// thread is leaked on time-out and dies with the process).
-fn watched(op: &str, a: &BigInt, b: &BigInt, p: &BigInt) -> String {
-    let (tx, rx) = mpsc::channel();
-    let (op, a, b, p) = (op.to_string(), a.clone(), b.clone(), p.clone());
-    std::thread::spawn(move || {
-        let r = guarded_op(&op, &a, &b, &p);
-        let _ = tx.send(r);
-    });
-    match rx.recv_timeout(Duration::from_secs(watchdog_secs(2))) {
-        Ok(s) => s,
-        Err(_) => "timeout".to_string(),
-    }
-}
-
-pub fn run_line(line: &str) -> String {
+pub fn run_line(line: &str, work: bool) -> String {
     let t: Vec<&str> = line.split_whitespace().collect();
     if t.len() != 4 {
         return "bad-line".to_string();
     }
     let (a, b, p) = (hex(t[1]), hex(t[2]), hex(t[3]));
-    // shifts by large counts and powers with large exponents run under the watchdog
-    let big_count = (t[0] == "shl" || t[0] == "shr" || t[0] == "pow") && b.bits() > 20;
-    let r = if big_count { watched(t[0], &a, &b, &p) } else { guarded_op(t[0], &a, &b, &p) };
-    format!("{} {} {} {} = {}", t[0], t[1], t[2], t[3], r)
+    MAX_ALLOC.store(0, Ordering::Relaxed);
+    let r = guarded_op(t[0], &a, &b, &p);
+    let m = MAX_ALLOC.load(Ordering::Relaxed);
+    if work {
+        format!("{} {} {} {} = {} maxalloc {}", t[0], t[1], t[2], t[3], r, m)
+    } else {
+        format!("{} {} {} {} = {}", t[0], t[1], t[2], t[3], r)
+    }
+}
+
+/// Feeds every stdin line to `f` in a worker thread; a line not answered within `secs` is printed as
+/// `<line> = timeout` and the process exits (status 0: the caller sees fewer lines than it sent and restarts
+/// on the rest).  Every line is flushed.
+fn each_line_watched(secs: u64, f: fn(&str) -> String) {
+    let (tx_in, rx_in) = mpsc::channel::<String>();
+    let (tx_out, rx_out) = mpsc::channel::<String>();
+    // the stack size of a main thread (8 MiB): what the tool itself would have
+    std::thread::Builder::new()
+        .stack_size(8 << 20)
+        .spawn(move || {
+            for line in rx_in {
+                let _ = tx_out.send(f(&line));
+            }
+        })
+        .unwrap();
+    let stdin = std::io::stdin();
+    let stdout = std::io::stdout();
+    let mut out = stdout.lock();
+    for line in stdin.lock().lines() {
+        let line = line.unwrap();
+        let line = line.trim().to_string();
+        if line.is_empty() {
+            continue;
+        }
+        tx_in.send(line.clone()).unwrap();
+        match rx_out.recv_timeout(Duration::from_secs(secs)) {
+            Ok(s) => {
+                writeln!(out, "{}", s).unwrap();
+                out.flush().unwrap();
+            }
+            Err(_) => {
+                writeln!(out, "{} = timeout", line).unwrap();
+                out.flush().unwrap();
+                std::process::exit(0);
+            }
+        }
+    }
 }
 
 /// All operations on all operand pairs of the field of size p (small p).
@@ -125,6 +189,7 @@ pub fn sweep<W: Write>(p: u64, out: &mut W) {
                 let r = guarded_op(op, &BigInt::from(a), &BigInt::from(b), &pb);
                 writeln!(out, "{} {:x} {:x} {:x} = {}", op, a, b, p, r).unwrap();
             }
+            out.flush().unwrap();
         }
     }
 }
@@ -185,7 +250,7 @@ fn dispatch_inner(curve: &Curve, expr_src: &str) -> String {
     }
 }
 
-/// `<curve> <hex expression text>`; expressions whose exponent or shift count is large run under the watchdog.
+/// `<curve> <hex expression text>` (runs under the per-case watchdog of each_line_watched).
 pub fn dispatch_line(line: &str) -> String {
     let t: Vec<&str> = line.split_whitespace().collect();
     if t.len() != 2 {
@@ -193,19 +258,38 @@ pub fn dispatch_line(line: &str) -> String {
     }
     let curve = match Curve::from_str(t[0]) {
         Ok(c) => c,
-        Err(_) => return "bad-curve".to_string(),
+        Err(_) => return format!("{} {} = bad-curve", t[0], t[1]),
     };
     let src = irdump::unhex(t[1]);
-    let (tx, rx) = mpsc::channel();
-    std::thread::spawn(move || {
-        let r = dispatch_inner(&curve, &src);
-        let _ = tx.send(r);
-    });
-    let r = match rx.recv_timeout(Duration::from_secs(watchdog_secs(5))) {
-        Ok(s) => s,
-        Err(_) => "timeout".to_string(),
-    };
+    let r = dispatch_inner(&curve, &src);
     format!("{} {} = {}", t[0], t[1], r)
+}
+
+fn curve_facts(c: &Curve) -> String {
+    match verif_harness::guarded(|| {
+        let k = UsefulConstants::new(c);
+        format!("{} {} {}", c, k.prime().to_str_radix(16), k.prime_size())
+    }) {
+        Some(s) => s,
+        None => "panic".to_string(),
+    }
+}
+
+/// `<hex of a candidate name>`: what Curve::from_str makes of it, and the prime of that curve by execution.
+fn curve_line(line: &str) -> String {
+    let name = irdump::unhex(line);
+    match verif_harness::guarded(|| Curve::from_str(&name)) {
+        None => format!("{} = panic", line),
+        Some(Err(_)) => format!("{} = reject", line),
+        Some(Ok(c)) => format!("{} = {}", line, curve_facts(&c)),
+    }
+}
+
+fn run_plain(line: &str) -> String {
+    run_line(line, false)
+}
+fn run_work(line: &str) -> String {
+    run_line(line, true)
 }
 
 fn main() {
@@ -219,8 +303,13 @@ fn main() {
         }
         out.flush().unwrap();
     } else if args.len() >= 2 && args[1] == "dispatch" {
-        verif_harness::each_line(dispatch_line);
+        each_line_watched(watchdog_secs(5), dispatch_line);
+    } else if args.len() >= 2 && args[1] == "curves" {
+        println!("default = {}", curve_facts(&Curve::default()));
+        verif_harness::each_line(curve_line);
+    } else if args.len() >= 2 && args[1] == "work" {
+        each_line_watched(watchdog_secs(2), run_work);
     } else {
-        verif_harness::each_line(run_line);
+        each_line_watched(watchdog_secs(2), run_plain);
     }
 }
